@@ -304,8 +304,18 @@ func (r *Reader) Inspect(validateBlockHash bool) (Stats, error) {
 			}
 		} else {
 			// otherwise, skip over it
-			if _, err := dr.Seek(int64(blockLength), io.SeekCurrent); err != nil {
-				return Stats{}, err
+			if blockLength > 0 {
+				// Seek to the last byte of the block and read it rather than seeking past it, so that
+				// a payload that ends inside the block is reported instead of taken for a clean end.
+				if _, err := dr.Seek(int64(blockLength)-1, io.SeekCurrent); err != nil {
+					return Stats{}, err
+				}
+				if _, err := bdr.ReadByte(); err != nil {
+					if err == io.EOF {
+						err = io.ErrUnexpectedEOF
+					}
+					return Stats{}, err
+				}
 			}
 		}
 
